@@ -342,7 +342,10 @@ def gen_csv(rng):
     for _ in range(nrows):
         # time with `digits` fractional digits: value is a multiple of 10^(9-digits) ns
         unit = 10 ** (9 - digits)
-        t_ns += unit * (rng.randrange(1, 3) if small_steps else rng.randrange(1, 50))
+        if rows and rng.random() < 0.15:
+            pass        # the same time stamp as the row before: still a row, hence an index, of its own
+        else:
+            t_ns += unit * (rng.randrange(1, 3) if small_steps else rng.randrange(1, 50))
         t_ns -= t_ns % unit
         ip, fp = divmod(t_ns, 10 ** 9)
         if digits == 0:
